@@ -347,6 +347,9 @@ def _parse_einsum_string(einsum_str: str) -> dict:
     input_matches = re.findall(tensor_pattern, rhs)
     if not input_matches:
         raise ValueError(f"No input tensors: {original}, {rhs}")
+    leftover = re.sub(tensor_pattern, "", rhs)
+    if "[" in leftover or "]" in leftover:
+        raise ValueError(f"Unbalanced brackets in einsum string: {original}")
 
     for m in input_matches:
         update(m, False)
@@ -389,6 +392,8 @@ def _parse_projection(proj_str: str) -> dict | list:
                 )
             if k in result:
                 raise ValueError(f"Duplicate rank entry: {k}. Must be unique. {s}")
+            if not v:
+                raise ValueError(f"Empty projection expression for rank {k}. {s}")
             result[k] = v
         else:
             if not part:
@@ -404,6 +409,10 @@ def _parse_projection(proj_str: str) -> dict | list:
                 raise ValueError(
                     f"Invalid projection value: {part.upper()}. The uppercased form of "
                     f"entry {part} must be a valid ISL identifier. {s}"
+                )
+            if part.upper() in result:
+                raise ValueError(
+                    f"Duplicate rank entry: {part.upper()}. Must be unique. {s}"
                 )
             result[part.upper()] = part
 
